@@ -270,8 +270,8 @@ func ruleFmtSwallow(c *Ctx, r *R) {
 					base := fmt.Sprintf("%s->%s:%s", ssaFuncName(fn), cal.Name(), t)
 					ord[base]++
 					key := fmt.Sprintf("%s#%d", base, ord[base])
-					if why, ok := reviewedLookup(fmtSwallowReviewed, fmt.Sprintf("%s->%s", ssaFuncName(fn), cal.Name())); ok {
-						r.ok("reviewed:"+key, c.Pos(instrPos(call)), why)
+					if onlyPanicText(call) {
+						r.ok("go-panic:"+key, c.Pos(instrPos(call)), "the formatted text is only the operand of a Go panic (an internal-invariant failure, not an error a script receives): the host is already failing there, and whether the arm can be reached is PANIC-foreign's obligation")
 						continue
 					}
 					r.bad(key, c.Pos(instrPos(call)),
@@ -284,8 +284,35 @@ func ruleFmtSwallow(c *Ctx, r *R) {
 	r.note("operands_converted_by_a_sanitiser", nConverted)
 }
 
-var fmtSwallowReviewed = map[string]string{
-	"(*runtime).calculateComparison->Sprintf":       "the text of a Go panic for an operand pair no arm of the equality algorithm claims: every Value has one of the six kinds the arms above cover, so the arm is an internal-invariant failure (a host panic either way), not an error a script can provoke",
-	"(*runtime).calculateComparison->hereBeDragons": "the ERROR label of the comparison: the default arm of the strict-equality switch over the kind of two operands of the same kind, after every kind a Value can have; an internal-invariant panic",
-	"toPrimitive->hereBeDragons":                    "the default arm of a switch over all value kinds: an internal-invariant panic for a Value no constructor builds",
+// onlyPanicText: the result of the formatter call is used for nothing but the operand of panic(...).
+func onlyPanicText(call ssa.CallInstruction) bool {
+	v, ok := call.(ssa.Value)
+	if !ok || v.Referrers() == nil || len(*v.Referrers()) == 0 {
+		return false
+	}
+	// a text or a plain error: what the raisers of script errors return (an exception) is panicked too, but is caught
+	// by the script's try statement and by Run
+	if t := typeStr(v.Type()); t != "string" && t != "error" {
+		return false
+	}
+	var only func(v ssa.Value, d int) bool
+	only = func(v ssa.Value, d int) bool {
+		if d > 3 || v.Referrers() == nil || len(*v.Referrers()) == 0 {
+			return false
+		}
+		for _, ref := range *v.Referrers() {
+			switch x := ref.(type) {
+			case *ssa.Panic:
+			case *ssa.MakeInterface:
+				if !only(x, d+1) {
+					return false
+				}
+			case *ssa.DebugRef:
+			default:
+				return false
+			}
+		}
+		return true
+	}
+	return only(v, 0)
 }
